@@ -46,6 +46,9 @@ var gkinds = map[string][]string{
 	// runs for a while and finishes well before the deadline: unaffected too,
 	// whatever its siblings do meanwhile
 	"slowok": {"ok 1", "exec hsleep 300ms p", "ok 4", "mkdir done"},
+	// a launcher: exits 0 at once while a descendant keeps the output pipe open
+	// for 700 ms, well before the deadline: unaffected as well
+	"lingerok": {"ok 1", "exec hlinger 700", "ok 4", "mkdir done"},
 	// a background program that shrugs off SIGQUIT and exits on SIGINT, next to a
 	// foreground command blocked until the deadline: the end-of-script clean-up
 	// must still stop it
@@ -96,7 +99,7 @@ var gseq int64
 var gmu sync.Mutex
 
 func blocking(kind string) bool {
-	return kind != "early" && kind != "edge" && kind != "slowok"
+	return kind != "early" && kind != "edge" && kind != "slowok" && kind != "lingerok"
 }
 
 // warmFarDeadline runs one trivial script under a deadline 200 s away. The grid's
@@ -293,7 +296,7 @@ func runGrid(root string, g gcase) string {
 		}
 		eff := strings.Join(obs.effects[name], ",")
 		switch {
-		case k == "early" || k == "slowok":
+		case k == "early" || k == "slowok" || k == "lingerok":
 			if g.Sequential && i > 0 {
 				// it may legitimately start after the deadline machinery has fired
 				blockedBefore := false
@@ -395,6 +398,7 @@ func gridCases(th bool) []gcase {
 	// a deadline far enough away for the grace period to grow beyond its floor
 	out = append(out, gcase{[]string{"graceful3"}, 10000, false, false}, gcase{[]string{"stubborn", "early"}, 10000, false, false})
 	out = append(out, gcase{[]string{"bgquitproof"}, 1500, false, false}, gcase{[]string{"early", "bgquitproof"}, 1500, true, false})
+	out = append(out, gcase{[]string{"lingerok"}, 4000, false, false}, gcase{[]string{"early", "lingerok"}, 4000, false, true}, gcase{[]string{"lingerok", "early"}, 4000, true, false})
 	out = append(out, gcase{[]string{"ttyblock"}, 600, false, false})
 	return out
 }
